@@ -53,8 +53,8 @@ theorem ruleOK_hr (P) (codeOn : Bool) : RuleOK P (ruleHr codeOn) := by
     · rw [h'] at h; cases h
   · intro s line endLine m s' hc h
     rcases key s line endLine hc with h' | ⟨mk, h'⟩
-    · rw [h'] at h; cases h; exact ⟨rfl, rfl, rfl, rfl⟩
-    · rw [h'] at h; cases h; exact ⟨rfl, rfl, rfl, by rw [pushFull_level0]⟩
+    · rw [h'] at h; cases h; exact ⟨⟨rfl, rfl⟩, rfl, rfl, rfl⟩
+    · rw [h'] at h; cases h; exact ⟨⟨rfl, rfl⟩, rfl, rfl, by rw [pushFull_level0]⟩
 
 theorem heading_shape (P) (codeOn : Bool) (ws : List Nat) : ∀ s line endLine, CallCtx P s line endLine →
     (ruleHeading codeOn ws s line endLine false = .ok (false, s)) ∨
@@ -82,9 +82,9 @@ theorem ruleOK_heading (P) (codeOn : Bool) (ws : List Nat) : RuleOK P (ruleHeadi
     · rw [h'] at h; cases h
   · intro s line endLine m s' hc h
     rcases key s line endLine hc with h' | ⟨a, b, c, h'⟩
-    · rw [h'] at h; cases h; exact ⟨rfl, rfl, rfl, rfl⟩
+    · rw [h'] at h; cases h; exact ⟨⟨rfl, rfl⟩, rfl, rfl, rfl⟩
     · rw [h'] at h; cases h
-      refine ⟨rfl, rfl, rfl, ?_⟩
+      refine ⟨⟨rfl, rfl⟩, rfl, rfl, ?_⟩
       rw [pushFull_level_close, pushFull_level0, pushFull_level_open]; simp
 
 theorem code_shape (P) (codeOn : Bool) : ∀ s line endLine, CallCtx P s line endLine →
@@ -118,8 +118,8 @@ theorem ruleOK_code (P) (codeOn : Bool) : RuleOK P (ruleCode codeOn) := by
     · rw [h'] at h; cases h
   · intro s line endLine m s' hc h
     rcases key s line endLine hc with h' | ⟨a, b, h1, h2, h'⟩
-    · rw [h'] at h; cases h; exact ⟨rfl, rfl, rfl, rfl⟩
-    · rw [h'] at h; cases h; exact ⟨rfl, rfl, rfl, by rw [pushFull_level0]⟩
+    · rw [h'] at h; cases h; exact ⟨⟨rfl, rfl⟩, rfl, rfl, rfl⟩
+    · rw [h'] at h; cases h; exact ⟨⟨rfl, rfl⟩, rfl, rfl, by rw [pushFull_level0]⟩
 
 theorem fence_shape (P) (codeOn : Bool) : ∀ s line endLine, CallCtx P s line endLine →
     (ruleFence codeOn s line endLine false = .ok (false, s)) ∨
@@ -169,8 +169,8 @@ theorem ruleOK_fence (P) (codeOn : Bool) : RuleOK P (ruleFence codeOn) := by
     · rw [h'] at h; cases h
   · intro s line endLine m s' hc h
     rcases key s line endLine hc with h' | ⟨a, b, c, d, h1, h2, h'⟩
-    · rw [h'] at h; cases h; exact ⟨rfl, rfl, rfl, rfl⟩
-    · rw [h'] at h; cases h; exact ⟨rfl, rfl, rfl, by rw [pushFull_level0]⟩
+    · rw [h'] at h; cases h; exact ⟨⟨rfl, rfl⟩, rfl, rfl, rfl⟩
+    · rw [h'] at h; cases h; exact ⟨⟨rfl, rfl⟩, rfl, rfl, by rw [pushFull_level0]⟩
 
 /-- what `paragraph` returns on a call from the loop (it scans to `state.lineMax`, whatever `endLine` it is given) -/
 theorem paragraph_shape (P : BState → Nat → Prop) (terms : List BRule) (hin : ∀ t ∈ terms, SilentInert t) (ws : List Nat)
@@ -202,7 +202,7 @@ theorem ruleOK_paragraph (P : BState → Nat → Prop) (terms : List BRule) (hin
   · intro s line endLine m s' hc h
     obtain ⟨n, c, h1, h2, h'⟩ := paragraph_shape P terms hin ws s line endLine hc
     rw [h'] at h; cases h
-    refine ⟨rfl, rfl, rfl, ?_⟩
+    refine ⟨⟨rfl, rfl⟩, rfl, rfl, ?_⟩
     simp [BState.pushFull]
 
 theorem paragraph_always (P : BState → Nat → Prop) (terms : List BRule) (hin : ∀ t ∈ terms, SilentInert t) (ws : List Nat) :
